@@ -762,17 +762,64 @@ func hashFeed(c ssa.CallInstruction) (ssa.Value, bool) {
 	return nil, false
 }
 
+// isDirListing: the call lists a directory.
+func isDirListing(c ssa.CallInstruction) (osReadDir, ok bool) {
+	if core.IsCallTo(c, "os", "ReadDir") {
+		return true, true
+	}
+	if core.IsMethod(c, "os", "File", "ReadDir") || core.IsMethod(c, "os", "File", "Readdir") || core.IsMethod(c, "os", "File", "Readdirnames") {
+		return false, true
+	}
+	return false, false
+}
+
+// dirListing finds the directory listing a function works on: a listing call of its own, or that of a same-package
+// helper whose result it uses (entries, err := sortedEntries(dir)).
+func dirListing(f *ssa.Function) (listing ssa.Instruction, osReadDir, found bool) {
+	for _, c := range core.Calls(f) {
+		if o, ok := isDirListing(c); ok {
+			return c.(ssa.Instruction), o, true
+		}
+	}
+	for _, c := range core.Calls(f) {
+		h := core.Callee(c)
+		if _, isCall := c.(*ssa.Call); !isCall || h == nil || h.Pkg != f.Pkg || h.Blocks == nil || h == f {
+			continue
+		}
+		for _, hc := range core.Calls(h) {
+			o, ok := isDirListing(hc)
+			if !ok {
+				continue
+			}
+			// the helper hands the listing back
+			returned := false
+			for _, ret := range core.ReturnsOf(h) {
+				for _, v := range core.RetVals(ret) {
+					if _, isSlice := v.Type().Underlying().(*types.Slice); !isSlice {
+						continue // the entries themselves, not an error or a sum computed from them
+					}
+					if core.DependsOn(v, core.SliceOpts{Stores: true}, func(x ssa.Value) bool { return x == hc.Value() }) {
+						returned = true
+					}
+				}
+			}
+			if returned {
+				return hc.(ssa.Instruction), o, true
+			}
+		}
+	}
+	return nil, false, false
+}
+
 func checkDirHash(p *core.Prog, r *core.Result, rule string) {
 	var dirFns []*ssa.Function
 	for _, f := range p.ModuleFuncs() {
 		if f.Pkg == nil || f.Pkg.Pkg.Path() != pkgRoot {
 			continue
 		}
-		lists, hashes := false, false
+		_, _, lists := dirListing(f)
+		hashes := false
 		for _, c := range core.Calls(f) {
-			if core.IsMethod(c, "os", "File", "ReadDir") || core.IsCallTo(c, "os", "ReadDir") || core.IsMethod(c, "os", "File", "Readdir") || core.IsMethod(c, "os", "File", "Readdirnames") {
-				lists = true
-			}
 			if _, ok := hashFeed(c); ok {
 				hashes = true
 			}
@@ -792,17 +839,7 @@ func checkDirHash(p *core.Prog, r *core.Result, rule string) {
 		return strings.HasPrefix(k, "strings.") || k == "fmt.Sprintf" || k == "path/filepath.ToSlash" || k == "path.Base" || k == "path/filepath.Base"
 	}
 	for _, f := range dirFns {
-		var listing ssa.Instruction
-		osReadDir := false
-		for _, c := range core.Calls(f) {
-			if core.IsMethod(c, "os", "File", "ReadDir") || core.IsMethod(c, "os", "File", "Readdir") || core.IsMethod(c, "os", "File", "Readdirnames") {
-				listing = c.(ssa.Instruction)
-			}
-			if core.IsCallTo(c, "os", "ReadDir") {
-				listing = c.(ssa.Instruction)
-				osReadDir = true
-			}
-		}
+		listing, osReadDir, _ := dirListing(f)
 		named := false
 		for _, c := range core.Calls(f) {
 			fed, isFeed := hashFeed(c)
@@ -825,7 +862,7 @@ func checkDirHash(p *core.Prog, r *core.Result, rule string) {
 // checkDirEntryErrors implements R1.14 (a contradiction rule: the consumer's belief "not-exist means this source is
 // missing" against what the directory hasher can return).
 func checkDirEntryErrors(p *core.Prog, r *core.Result, rule string) {
-	notExistArg := func(c ssa.CallInstruction) ssa.Value {
+	directNotExist := func(c ssa.CallInstruction) ssa.Value {
 		if core.IsCallTo(c, "os", "IsNotExist") && len(c.Common().Args) == 1 {
 			return c.Common().Args[0]
 		}
@@ -834,6 +871,26 @@ func checkDirEntryErrors(p *core.Prog, r *core.Result, rule string) {
 				if g, ok := ld.X.(*ssa.Global); ok && (g.Name() == "ErrNotExist") {
 					return c.Common().Args[0]
 				}
+			}
+		}
+		return nil
+	}
+	// a not-exist test, written out or through a boolean helper of the module that applies one to its only parameter
+	// (isSumFailure(err), isMissing(err)); the polarity does not matter for finding the consumers
+	notExistArg := func(c ssa.CallInstruction) ssa.Value {
+		if a := directNotExist(c); a != nil {
+			return a
+		}
+		h := core.Callee(c)
+		if h == nil || !core.InModule(h) || h.Blocks == nil || len(h.Params) != 1 || len(c.Common().Args) != 1 {
+			return nil
+		}
+		if res := h.Signature.Results(); res.Len() != 1 || res.At(0).Type().String() != "bool" {
+			return nil
+		}
+		for _, hc := range core.Calls(h) {
+			if directNotExist(hc) == ssa.Value(h.Params[0]) {
+				return c.Common().Args[0]
 			}
 		}
 		return nil
@@ -904,13 +961,7 @@ func checkDirEntryErrors(p *core.Prog, r *core.Result, rule string) {
 		if f.Pkg == nil || f.Pkg.Pkg.Path() != pkgRoot {
 			continue
 		}
-		lists := false
-		for _, c := range core.Calls(f) {
-			if core.IsMethod(c, "os", "File", "ReadDir") || core.IsCallTo(c, "os", "ReadDir") || core.IsMethod(c, "os", "File", "Readdir") || core.IsMethod(c, "os", "File", "Readdirnames") {
-				lists = true
-			}
-		}
-		if !lists {
+		if _, _, lists := dirListing(f); !lists {
 			continue
 		}
 		k := 0
@@ -933,10 +984,16 @@ func checkDirEntryErrors(p *core.Prog, r *core.Result, rule string) {
 			// the error of an entry's sum is handed up
 			n++
 			k++
-			excluded := p.FactsAt(ret).Find(func(cv ssa.Value, v bool) bool {
-				c, ok := cv.(*ssa.Call)
-				return ok && !v && notExistArg(c) == ssa.Value(e)
-			})
+			excluded := false
+			for _, xf := range xfacts(p, ret) {
+				c, ok := xf.Cond.(*ssa.Call)
+				if !ok || xf.Val {
+					continue
+				}
+				if a := directNotExist(c); a != nil && xf.Arg(a) == ssa.Value(e) {
+					excluded = true
+				}
+			}
 			r.Check(excluded, rule, fmt.Sprintf("%s#entry-error-%d", fname(f), k), p.InstrPos(ret), "an entry's error is handed up only where it is not a 'does not exist' error", "the error of one entry's sum is returned as the directory's error even when it says 'does not exist': the consumer reads that as 'the source is missing' and takes the empty sum, so a directory with one dangling symbolic link hashes to the same sum whatever it contains and no edit in it is ever noticed")
 		}
 	}
@@ -1075,6 +1132,33 @@ func checkFunctionUpToDate(p *core.Prog, r *core.Result) {
 			// a non-constant verdict must be the verdict of diffEnv on a path where outputs were not checked: only allowed when false
 			if dcall != nil && vals[0] == extractOf(dcall, 0) {
 				continue
+			}
+			// the verdict of a helper that checks the declared outputs (ok, reason, err := f.checkGenerated()): every
+			// "true" it can return is after all outputs were stat'ed, and the call is made on the environment-unchanged edge
+			if e, isE := vals[0].(*ssa.Extract); isE && e.Index == 0 {
+				if hc, isC := e.Tuple.(*ssa.Call); isC {
+					if h := core.Callee(hc); h != nil && h.Pkg == f.Pkg && h.Blocks != nil && h != diffEnv {
+						okAll, nTrue := true, 0
+						for _, hr := range core.ReturnsOf(h) {
+							hv := core.RetVals(hr)
+							if len(hv) == 0 {
+								okAll = false
+								continue
+							}
+							if hb, isConst := core.ConstBool(hv[0]); isConst && !hb {
+								continue
+							}
+							nTrue++
+							if !outputsVerifiedAt(p, h, hr, 1) {
+								okAll = false
+							}
+						}
+						envSame := dcall != nil && holds(p, hc, true, func(v ssa.Value) bool { return v == extractOf(dcall, 0) })
+						n++
+						r.Check(okAll && nTrue > 0 && envSame, "R1.5", fmt.Sprintf("dawn.(*function).upToDate#returns-true-%d", n), p.InstrPos(ret), "hands on the verdict of "+fname(h)+", which is true only after every declared output was stat'ed successfully, and asks it only when the environment is unchanged", "a function target can be reported up to date without its environment being unchanged and all declared outputs existing: a deleted output is not regenerated")
+						continue
+					}
+				}
 			}
 			r.Unk("R1.5", fmt.Sprintf("dawn.(*function).upToDate#return-%d", i+1), p.InstrPos(ret), "verdict is neither a constant nor diffEnv's verdict")
 			continue
